@@ -218,7 +218,9 @@ func (e *End) ReadPacket() ([]byte, error) {
 			p.emit(Ev{Kind: EvRead, End: e.id, Pkt: it.pkt, WSeq: it.wseq, stored: p.log[it.wseq].Pkt})
 			p.lastRead[e.id] = it.wseq
 			p.cond.Broadcast()
-			return it.pkt, nil
+			// capacity == length: reading past the end of a short packet must
+			// fault like it would on an exactly sized buffer, not find spare bytes
+			return it.pkt[:len(it.pkt):len(it.pkt)], nil
 		}
 		if p.closed {
 			break
